@@ -46,6 +46,26 @@ reg('C02', 'model_checking',
     'computed digest. RIPEMD-160 signatures and Brainpool curves cannot be exercised with the installed cryptography build.',
     'exhaustive configuration enumeration on the real signer/verifier, differential against an independent RFC 4880 implementation', 'DESIGN.md 2/C02')
 
+reg('C01', 'fault_enumeration',
+    'Deviation-bounded fault enumeration on real signatures: 0 deviations (every base must verify) then every single mutation of a finite alphabet -- '
+    'subject bit flips and edits, type-confusion twins, every other signature type / public-key algorithm / hash id, every bit of the hashed area and its '
+    'length, hashed subpacket add / remove / duplicate / reorder / demote to unhashed, signature integer bits, other keys with the issuer rewritten, '
+    'primary<->subkey relabelling, parts swapped between certificates, content flips in signed messages -- over 60 algorithm x hash bases and 21 signature '
+    'kinds x 4 signers (~1.1e5 verifications). Thorough adds reference-signed bases, all 10 signers and mutation pairs (2 deviations). Soundness is a '
+    'statement about adversarial inputs, so enumerating the fault alphabet on the real verifier is the fitting level.',
+    'Mutations are classified by construction (hashed region / integers / subject / key => different; unhashed data => free); when PGPy accepts a '
+    '"different" mutant the reference verifier arbitrates. Values outside the mutation alphabet (multi-bit changes beyond pairs) are not explored.',
+    'deviation-bounded exhaustive fault enumeration on the real verifier', 'DESIGN.md 2/C01')
+
+reg('C05', 'model_checking',
+    'Reference-signed signatures whose hashed area carries every subpacket type 0..127 x critical bit x 1/2/5-octet (also non-minimal) length encodings x '
+    'body alphabets (all flag octets, booleans 0/1/2/255, all 256 revocation-key classes, text in 8 encodings, known/unknown list ids, every free-layout '
+    'length of the length set), 2-4 subpackets in every order with duplicates, embedded signatures. For every packet PGPy accepts: hashdata() equals the '
+    'RFC 4880 hash input over the received octets, verification is truthy, and every single-bit flip in the header/hashed region of a representative of '
+    'each class (~7e5 flips) is rejected.',
+    'Trusted: refpgp.sig signer (Ed25519 through OpenSSL). Packets PGPy rejects at import are outside the property and are counted.',
+    'exhaustive input enumeration + exhaustive single-bit fault enumeration on the real parser/verifier', 'DESIGN.md 2/C05')
+
 ALL = ['C%02d' % i for i in range(1, 21)]
 
 NOT_YET = 'check not built yet in this revision of /verif (work in progress; see DESIGN.md section 8)'
